@@ -127,6 +127,13 @@ impl Model {
 
 pub struct Subject {
     pub cap: u32,
+    /// pre-state: executed (and judged) before every history, not counted in its depth or its
+    /// disk-operation bound — histories then start from a checkpointed, non-initial state
+    pub pre: Vec<Op>,
+    /// quick tier: the longest histories (depth 5) carry at most one disk operation — every disk
+    /// operation is five round trips to tokio's blocking pool, and two-disk-operation histories
+    /// of depth 5 alone were half of the run time; depth ≤ 4 and the pre-state subjects keep two
+    pub lean: bool,
 }
 
 /// A corrupted list (self-loop) would make the walk endless: the callback unwinds out of it.
@@ -148,11 +155,16 @@ fn observe(m: &LruManager) -> (usize, Vec<String>, [bool; 4]) {
 impl SeqSubject for Subject {
     type Op = Op;
     fn config_name(&self) -> String {
-        format!("LruManager(capacity={})", self.cap)
+        if self.pre.is_empty() {
+            format!("LruManager(capacity={})", self.cap)
+        } else {
+            format!("LruManager(capacity={}) after {:?}", self.cap, self.pre)
+        }
     }
     fn sig_config(&self) -> String {
         // capacity is not part of the signature unless it is the degenerate 0
-        if self.cap == 0 { "cap0".into() } else { "cap>=1".into() }
+        let c = if self.cap == 0 { "cap0" } else { "cap>=1" };
+        if self.pre.is_empty() { c.to_string() } else { format!("{c},pre={:?}", self.pre) }
     }
     fn alphabet(&self) -> Vec<Op> {
         let mut a = Vec::new();
@@ -185,7 +197,8 @@ impl SeqSubject for Subject {
         a
     }
     fn admissible(&self, hist: &[Op]) -> bool {
-        hist.iter().filter(|o| o.is_disk()).count() <= 2
+        let d = hist.iter().filter(|o| o.is_disk()).count();
+        d <= 2 && !(self.lean && hist.len() >= 5 && d > 1)
     }
     fn canon(&self, hist: &[Op]) -> String {
         // rename the three non-zero keys by first occurrence; the zero key keeps its identity
@@ -214,7 +227,10 @@ impl SeqSubject for Subject {
         parts.join(";")
     }
 
-    fn run(&self, hist: &[Op]) -> SeqRun {
+    fn run(&self, suffix: &[Op]) -> SeqRun {
+        let npre = self.pre.len();
+        let full: Vec<Op> = self.pre.iter().cloned().chain(suffix.iter().cloned()).collect();
+        let hist: &[Op] = &full;
         let needs_disk = hist.iter().any(Op::is_disk);
         let scratch = if needs_disk { Some(Scratch::new("c17")) } else { None };
         let dir = scratch.as_ref().map(|s| s.path.clone()).unwrap_or_else(|| "/nonexistent-c17".into());
@@ -224,7 +240,8 @@ impl SeqSubject for Subject {
         let mut obs_log = String::new();
 
         let fail = |i: usize, kind: &str, detail: String, calls: u64| SeqRun {
-            violation: Some((i, kind.to_string(), detail)),
+            // index into the history proper (a violation inside the pre-state counts as op 0)
+            violation: Some((i.saturating_sub(npre), kind.to_string(), if i < npre { format!("[inside the pre-state, op {i}] {detail}") } else { detail })),
             state_key: None,
             outcome: 0,
             calls,
@@ -361,22 +378,31 @@ impl SeqSubject for Subject {
 pub fn run(tier: Tier, seed: u64) -> i32 {
     let rep = Report::new("C17", tier, seed, Level::ModelChecking);
     rep.set_rule(
-        "every admissible history (≤2 disk operations) up to the depth bound over the op alphabet × 4 keys (one all-zero) per capacity, executed on the real LruManager in lock-step with a textbook LRU; no state merging (free list is hidden state), so states = histories; every history is distinct and non-trivial (≥1 operation)",
+        "every admissible history (≤2 disk operations) up to the depth bound over the op alphabet × 4 keys (one all-zero) per capacity — from the empty tracker and (depth 3 / 5) from two checkpointed pre-states — executed on the real LruManager in lock-step with a textbook LRU; no state merging (free list is hidden state), so states = histories; every history is distinct and non-trivial (≥1 operation)",
     );
     rep.assume("reference model: VecDeque LRU + generation→snapshot map following the documented checkpoint protocol (write current generation, delete previous, scan keeps current+previous)");
     rep.assume("checkpoint files live on tmpfs; crash behaviour is C06's subject, not this check's");
     let depth = tier.pick(5, 6);
     let mut completed = Vec::new();
     for cap in [1u32, 2, 3] {
-        let s = Subject { cap };
+        let s = Subject { cap, pre: Vec::new(), lean: tier == Tier::Quick };
         let st = explore(&s, &SeqBounds::depth(depth).with_budget(tier.pick(40, 900)), &rep);
         completed.push(serde_json::json!({"capacity": cap, "depth_completed": st.completed_depth, "histories": st.histories, "violating_histories": st.violations}));
     }
+    // non-initial start states: a checkpoint exists already (with and without a later generation bump)
+    let pre_depth = tier.pick(3, 5);
+    for cap in [2u32, 3] {
+        for pre in [vec![Op::Touch(0), Op::Touch(1), Op::Checkpoint], vec![Op::Touch(0), Op::Touch(1), Op::Touch(2), Op::Checkpoint, Op::BumpGen]] {
+            let s = Subject { cap, pre: pre.clone(), lean: false };
+            let st = explore(&s, &SeqBounds::depth(pre_depth).with_budget(tier.pick(20, 600)), &rep);
+            completed.push(serde_json::json!({"capacity": cap, "pre_state": format!("{pre:?}"), "depth_completed": st.completed_depth, "histories": st.histories, "violating_histories": st.violations}));
+        }
+    }
     // capacity 0: the "capacity at least one" boundary — touch must return false, nothing may panic
-    let s0 = Subject { cap: 0 };
+    let s0 = Subject { cap: 0, pre: Vec::new(), lean: false };
     let st = explore(&s0, &SeqBounds::depth(3), &rep);
     completed.push(serde_json::json!({"capacity": 0, "depth_completed": st.completed_depth, "histories": st.histories, "violating_histories": st.violations}));
-    rep.extra("bounds", serde_json::json!({"depth": depth, "max_disk_ops_per_history": 2, "capacities": [0, 1, 2, 3], "keys": 4, "per_capacity": completed}));
+    rep.extra("bounds", serde_json::json!({"depth": depth, "max_disk_ops_per_history": if tier == Tier::Quick { "2 up to depth 4 and from the pre-states, 1 at depth 5" } else { "2" }, "capacities": [0, 1, 2, 3], "keys": 4, "per_capacity": completed}));
     if rep.outcomes() < 10 {
         rep.machinery_error("vacuous exploration: fewer than 10 distinct outcomes");
     }
@@ -386,17 +412,18 @@ pub fn run(tier: Tier, seed: u64) -> i32 {
 /// Replay a witness (`core_ops` strings are informational; the Debug form is parsed here).
 pub fn replay(w: &serde_json::Value) -> i32 {
     let cfg = w["witness"]["config"].as_str().unwrap_or("");
-    let cap: u32 = cfg
-        .trim_start_matches("LruManager(capacity=")
-        .trim_end_matches(')')
-        .parse()
-        .unwrap_or(2);
+    let (cap_part, pre_part) = match cfg.split_once(" after ") {
+        Some((c, p)) => (c, p),
+        None => (cfg, ""),
+    };
+    let cap: u32 = cap_part.trim_start_matches("LruManager(capacity=").trim_end_matches(')').parse().unwrap_or(2);
+    let pre: Vec<Op> = pre_part.trim_matches(['[', ']']).split(", ").filter_map(parse_op).collect();
     let ops: Vec<Op> = w["witness"]["core_ops"]
         .as_array()
         .map(|a| a.iter().filter_map(|s| parse_op(s.as_str().unwrap_or(""))).collect())
         .unwrap_or_default();
-    println!("replaying on LruManager(capacity={cap}): {ops:?}");
-    let r = Subject { cap }.run(&ops);
+    println!("replaying on LruManager(capacity={cap}) after {pre:?}: {ops:?}");
+    let r = Subject { cap, pre, lean: false }.run(&ops);
     match r.violation {
         Some((i, k, d)) => {
             println!("violates at op {i}: {k}: {d}");
